@@ -6,6 +6,15 @@ From FV Require Import Base RouteMap Netlist Hw.
 Definition fails := list (string * string).
 Definition one (key msg : string) : fails := [(key, msg)].
 Definition guard (b : bool) (key msg : string) : fails := if b then [] else one key msg.
+Definition opt_str_eqb (a b : option string) : bool :=
+  match a, b with
+  | Some x, Some y => str_eqb x y
+  | None, None => true
+  | _, _ => false
+  end.
+Definition show_opt (o : option string) : string := match o with Some s => s | None => "-" end.
+Definition cfg_get (n : netlist) (k : string) : option string :=
+  option_map snd (find (fun p => str_eqb (fst p) k) (n_route_cfg n)).
 Definition ZS := Z_to_string.
 Definition NS (n : nat) := Z_to_string (Z.of_nat n).
 Definition idv_str (i : idv) : string :=
@@ -130,7 +139,12 @@ Definition c03_pair (n : netlist) (st : ni_inst * ni_inst) : fails :=
   end.
 Definition chk_C03 (n : netlist) : fails :=
   guard (str_eqb (n_algo n) "SourceRouting") "not-src-routing" "netlist is not source routed" ++
-  flat_map (c03_pair n) (ordered_pairs n).
+  flat_map (c03_pair n) (ordered_pairs n) ++
+  (* the network interface reads its row through a port of RouteCfg.NumRoutes entries (floo_*_chimney: route_table_i):
+     a column beyond that count is cut off, whatever word the package holds there *)
+  guard (opt_str_eqb (cfg_get n "NumRoutes") (Some (ZS (Z.of_nat (length (n_nis n)))))) "route-table-port"
+        ("RouteCfg.NumRoutes=" +++ show_opt (cfg_get n "NumRoutes") +++ " for " +++ ZS (Z.of_nat (length (n_nis n)))
+         +++ " endpoints: the route table port of the network interfaces does not reach every destination's column").
 
 (* ---------------------------------------------------------------- C05: pairing *)
 Definition nets (n : netlist) : list net := if n_nw n then [Req; Rsp; Wide] else [Req; Rsp].
@@ -157,13 +171,6 @@ Definition far_out (n : netlist) (nt : net) (sl : list string) : res (option str
   | _ => Err "output slot drives several signals"
   end.
 
-Definition opt_str_eqb (a b : option string) : bool :=
-  match a, b with
-  | Some x, Some y => str_eqb x y
-  | None, None => true
-  | _, _ => false
-  end.
-Definition show_opt (o : option string) : string := match o with Some s => s | None => "-" end.
 
 (* the slots of port i of router r on all channels, with what is at their far end *)
 Definition port_far_ends (n : netlist) (r : rt_inst) (i : nat) : list (string * res (option string)) :=
@@ -251,8 +258,6 @@ Definition c01_rule (n : netlist) (exp : list (string * (Z * Z))) (r : sam_rule)
         "rule-not-declared"
         ("address-map rule [" +++ ZS (sr_start r) +++ "," +++ ZS (sr_end r) +++ ") -> " +++ idv_str (sr_idx r)
          +++ " corresponds to no declared range of the interface with that identity").
-Definition cfg_get (n : netlist) (k : string) : option string :=
-  option_map snd (find (fun p => str_eqb (fst p) k) (n_route_cfg n)).
 Definition chk_C01 (n : netlist) (exp : list (string * (Z * Z))) : fails :=
   guard (forallb (fun r => sr_start r <? sr_end r) (n_sam n)) "empty-rule" "an address-map rule is empty" ++
   guard (check_no_overlap (sam_as_rules n)) "overlap" "address-map rules overlap" ++
